@@ -365,6 +365,7 @@ fn clean_item(it: &mut syn::Item, derive_keep: &[String], subst: &BTreeMap<Strin
 
 struct Rules {
     split_find: bool,
+    iter_find: Option<String>,
     for_ref_skip: bool,
     filter_map_collect: Option<String>,
     fmt_concat: bool,
@@ -501,6 +502,43 @@ impl<'a> VisitMut for RuleVisitor<'a> {
             if let Some(n) = repl {
                 *e = n;
                 self.applied.bump("E18-split-map-collect-as-loop");
+            }
+        }
+        if let Some(item_ty) = &self.rules.iter_find {
+            // E23[=ItemType]: `X.iter().find(|p| COND)` ==> `{ let mut __vx_found = None; for __vx_item in X.iter() { if __vx_found.is_none() { let p = &__vx_item;
+            // if COND { __vx_found = Some(__vx_item); } } } __vx_found }` (find returns the first item, in order, for which the closure holds;
+            // the closure receives a reference to the iterator's item, which for a slice iterator is itself a reference)
+            let mut repl: Option<Expr> = None;
+            if let Expr::MethodCall(c2) = &*e {
+                if c2.method == "find" && c2.args.len() == 1 {
+                    if let (Expr::Closure(cl), Expr::MethodCall(c1)) = (&c2.args[0], &*c2.receiver) {
+                        if c1.method == "iter" && c1.args.is_empty() && cl.inputs.len() == 1 {
+                            let recv = &c1.receiver;
+                            let pat = match &cl.inputs[0] { syn::Pat::Type(pt) => (*pt.pat).clone(), other => other.clone() };
+                            let cond = &cl.body;
+                            let decl: syn::Stmt = if item_ty.is_empty() { parse_quote!(let mut __vx_found = None;) } else {
+                                let t: syn::Type = syn::parse_str(item_ty).unwrap_or(parse_quote!(_));
+                                parse_quote!(let mut __vx_found: Option<#t> = None;)
+                            };
+                            repl = Some(parse_quote!({
+                                #decl
+                                for __vx_item in #recv.iter() {
+                                    if __vx_found.is_none() {
+                                        let #pat = &__vx_item;
+                                        if #cond {
+                                            __vx_found = Some(__vx_item);
+                                        }
+                                    }
+                                }
+                                __vx_found
+                            }));
+                        }
+                    }
+                }
+            }
+            if let Some(n) = repl {
+                *e = n;
+                self.applied.bump("E23-iter-find-as-early-stop-loop");
             }
         }
         if let Some(elem_ty) = &self.rules.filter_map_collect {
@@ -1175,6 +1213,7 @@ fn transform_fn(
         .unwrap_or_default();
     let rules = Rules {
         split_find: rule_list.iter().any(|r| r == "E19"),
+        iter_find: rule_list.iter().find_map(|r| if r == "E23" { Some(String::new()) } else { r.strip_prefix("E23=").map(String::from) }),
         for_ref_skip: rule_list.iter().any(|r| r == "E22"),
         filter_map_collect: rule_list.iter().find_map(|r| if r == "E21" { Some(String::new()) } else { r.strip_prefix("E21=").map(String::from) }),
         fmt_concat: rule_list.iter().any(|r| r == "E20"),
